@@ -1,6 +1,6 @@
 (* C11 — the tower stays live (sequential half): the structural invariant holds in every reachable
    state, and under it the unwrap sites of the API handlers are unreachable.  Statements only. *)
-From TeosModel Require Import Base TxIndex Tower TowerStable TowerInv TowerProofs TowerSubs.
+From TeosModel Require Import Base TxIndex Tower TowerStable TowerInv TowerProofs TowerSubs Conc LockOrder.
 Local Open Scope N_scope.
 
 (* Every state reached from the bootstrap by any history of requests, blocks and node answers in
@@ -25,6 +25,27 @@ Theorem C11_reads_never_abort le t sc signer :
   (forall loc, not_abort (snd (step le t (OGet signer loc) sc))) /\ not_abort (snd (step le t (OGetSub signer) sc)).
 Proof. exact (reads_never_abort le t sc signer). Qed.
 
+(* Concurrent half, mutexes: every (held -> requested) pair any kind of operation may produce (table
+   LockOrder.op_edges, checked against what hook H3 observes the real code doing in every step of
+   every explored history) goes strictly upwards in the order
+   locator_cache < carrier < tx_index < reorged_trackers < registered_users < dbm < bitcoind_reachable ... *)
+Theorem C11_lock_order_respected kind a b : In (a, b) (op_edges kind) -> lock_rank a < lock_rank b.
+Proof. exact (lock_order_respected kind a b). Qed.
+
+(* ... hence no configuration of any number of threads executing such operations is a deadlock on
+   mutexes (waiting on the reachability condition variable is C12's subject). *)
+Theorem C11_no_mutex_deadlock (c : cconfig) :
+  (forall th l h, In th c -> th_want th = Some l -> In h (th_held th) -> exists kind, In (h, l) (op_edges kind)) ->
+  ~ deadlock c.
+Proof. exact (tower_no_mutex_deadlock c). Qed.
+
+(* the generic theorem behind it *)
+Theorem C11_lock_order_no_deadlock rank (c : cconfig) : disciplined rank c -> ~ deadlock c.
+Proof. exact (lock_order_no_deadlock rank c). Qed.
+
+Print Assumptions C11_lock_order_respected.
+Print Assumptions C11_no_mutex_deadlock.
+Print Assumptions C11_lock_order_no_deadlock.
 Print Assumptions C11_invariant_reachable.
 Print Assumptions C11_invariant_step.
 Print Assumptions C11_register_never_aborts.
